@@ -891,9 +891,6 @@ where
             Self::handle_opts(&opts, status);
         };
 
-        // We got an answer, reset the timer
-        status.state = ConnState::Active(Some(Instant::now()));
-
         let id = answer.header().id();
 
         // Get the correct query and send it the reply.
@@ -905,6 +902,12 @@ where
                 return;
             }
         };
+
+        // We got an answer for one of our requests, reset the timer. A
+        // message that does not belong to any request must not do that,
+        // otherwise unrelated messages keep pending requests from timing
+        // out.
+        status.state = ConnState::Active(Some(Instant::now()));
         let mut send_eof = false;
         let answer = if match &req.msg {
             ReqSingleMulti::Single(msg) => msg.is_answer(answer.for_slice()),
